@@ -452,6 +452,7 @@ def run_shape(chk):
 
 def run(chk):
     proofs_ok = core.standard_proof_phase(chk, "C08", gen_needed=("ResultsFilesGen",))
+    core.extra_props_phase(chk, "C08_system")     # rows are moved, never dropped or duplicated, in the system model
     logging.disable(logging.CRITICAL)
     model_ready = (core.THEORIES / "ResultsFiles.vo").exists() and (core.THEORIES / "Gen" / "ResultsFilesGen.vo").exists()
     for part in (run_shape, run_lock_diff, run_csv, run_scenarios):
